@@ -42,7 +42,8 @@ Judge(ev) ==
      ELSE IF bads # {} THEN RunMsg(ev.runs[CHOOSE i \in bads : \A j \in bads : i <= j])
      ELSE IF ev.pret # 1 \/ ev.print # txt THEN "C14: print output differs from the reference rendering"
      ELSE ""
-Next == /\ l <= Len(Tr) /\ bad = "" /\ l' = l + 1
+\* every line is an independent execution: validation continues after a disagreement
+Next == /\ l <= Len(Tr) /\ l' = l + 1
         /\ LET m == Judge(Tr[l]) IN
            /\ bad' = m
            /\ nok' = nok + (IF R!Parse(Tr[l].buf, Tr[l].root, Tr[l].maxd).ok THEN 1 ELSE 0)
